@@ -93,6 +93,9 @@ type PeerSpec struct {
 	// ProxyReply is the raw CONNECT reply (default "HTTP/1.1 200 Connection established\r\n\r\n").
 	ProxyReply string `json:"proxy_reply,omitempty"`
 	BackendTLS bool   `json:"backend_tls,omitempty"`
+	// BackendALPN: the backend's TLS server selects this application protocol
+	// if the client offers it.
+	BackendALPN string `json:"backend_alpn,omitempty"`
 	// BackendCert: valid | otherhost | untrusted
 	BackendCert string `json:"backend_cert,omitempty"`
 	// Stall: the peer stops responding (keeps the connection open, reads
@@ -332,7 +335,11 @@ func runPeer(raw net.Conn, spec PeerSpec, log *PeerLog) {
 		case "untrusted":
 			cert = p.untrusted
 		}
-		tc := tls.Server(c, &tls.Config{Certificates: []tls.Certificate{cert}, GetConfigForClient: func(h *tls.ClientHelloInfo) (*tls.Config, error) {
+		var alpn []string
+		if spec.BackendALPN != "" {
+			alpn = []string{spec.BackendALPN}
+		}
+		tc := tls.Server(c, &tls.Config{Certificates: []tls.Certificate{cert}, NextProtos: alpn, GetConfigForClient: func(h *tls.ClientHelloInfo) (*tls.Config, error) {
 			log.mu.Lock()
 			log.BackendSNI = h.ServerName
 			log.mu.Unlock()
